@@ -26,4 +26,10 @@ def run(tier, seed):
     import contracts.parser_core  # noqa: F401
     res.add(run_functions(TS.FUNCTIONS + ["CParser._mark", "CParser._reset", "CParser._peek", "CParser._advance", "CParser._accept",
                                           "CParser._expect"], "C01/smt", tier))
+    # acceptance is claimed for a parser in ANY earlier state (a re-used instance): every parse starts from the same lexer,
+    # scope and stream state, and the scope / classification functions do what C scoping says (typedef feedback)
+    import contracts.lexer as LX  # noqa: F401
+    res.add(run_functions(["CParser.parse#prologue", "CLexer.input", "CLexer._init_state", "CParser._is_type_in_scope",
+                           "CParser._add_typedef_name", "CParser._add_identifier", "CParser._push_scope", "CParser._pop_scope"],
+                          "C01/smt", tier))
     return res
